@@ -11,6 +11,10 @@
 (*                               a name a hostile server mentioned           *)
 (*   end     asked               number of upstream queries of the           *)
 (*                               resolution                                  *)
+(*   stub    chain end per asked kind   (stub resolver layer) CachingClient  *)
+(*                               followed a chain of `chain` aliases ending  *)
+(*                               in an address / nothing / a loop and made   *)
+(*                               `asked` upstream queries                    *)
 (* The monitor keeps the log of responses and judges every event with the    *)
 (* operators of RecursorOps -- the ones the model Recursor is checked        *)
 (* against.  It knows nothing about how the resolver walks the tree.         *)
@@ -73,6 +77,9 @@ Problems ==
       [] e.ev = "result" -> HandedProblems("returned")
       [] e.ev = "probe"  -> HandedProblems("served-from-cache")
       [] e.ev = "end"    -> {}
+      \* C19_StubDepth
+      [] e.ev = "stub"   -> (IF e.kind = "runaway" THEN {"did-not-terminate"} ELSE {})
+                            \cup (IF ~StubQueriesOk(e.asked) THEN {"stub-alias-chase-exceeds-hop-limit"} ELSE {})
       [] OTHER           -> {"harness:unknown-event"}
 
 Update ==
